@@ -559,6 +559,27 @@ fn main() {
                 println!("{}", l);
             }
         }
+        "probe" => {
+            // developer aid: analyse snippets (separated by lines `---`) as single sources
+            let mut input = String::new();
+            std::io::Read::read_to_string(&mut std::io::stdin(), &mut input).unwrap();
+            for snip in input.split("\n---\n") {
+                let mut w = World::empty();
+                w.entry = oq3sim::world::Entry::StringPlain { text: snip.to_string() };
+                let run = oq3sim::exec::run_world(&w);
+                match &run.result {
+                    RunResult::Returned(o) => println!(
+                        "OK   stmts={} syntax_errs={} sem={:?}  <= {:?}",
+                        o.program.stmts().len(),
+                        o.num_syntax_errors,
+                        o.lists.diags.iter().map(|d| d.kind.clone()).collect::<Vec<_>>(),
+                        snip
+                    ),
+                    RunResult::Panic(m) => println!("PANIC {}  <= {:?}", m.chars().take(90).collect::<String>(), snip),
+                    RunResult::Budget => println!("BUDGET <= {:?}", snip),
+                }
+            }
+        }
         "realfs" => {
             let code = oq3sim::realfs::run(&args, seed);
             std::process::exit(code);
